@@ -68,12 +68,21 @@ func NewGoMetricsCollector(prefix []string, labels []gometrics.Label, gm *gometr
 // follow prometheus conventions with lower_case_and_underscores. We don't
 // need any additional labels currently.
 func (c *GoMetricsCollector) IncrementCounter(name string, delta uint64) {
-	c.gm.IncrCounterWithLabels(c.name(name), float32(delta), c.labels)
+	c.metrics().IncrCounterWithLabels(c.name(name), float32(delta), c.labels)
 }
 
 // SetGauge sets the value of the named gauge overriding any previous value.
 func (c *GoMetricsCollector) SetGauge(name string, val uint64) {
-	c.gm.SetGaugeWithLabels(c.name(name), float32(val), c.labels)
+	c.metrics().SetGaugeWithLabels(c.name(name), float32(val), c.labels)
+}
+
+// metrics returns the instance to report to: the zero value of
+// GoMetricsCollector writes to the default global instance.
+func (c *GoMetricsCollector) metrics() *gometrics.Metrics {
+	if c.gm == nil {
+		return gometrics.Default()
+	}
+	return c.gm
 }
 
 // name returns the metric name as a slice we don't want to risk modifying the
